@@ -80,3 +80,147 @@ Example ex6_result :
   map x_height (n_log (run ex_exec (ex_g 5) ex6_hist)) = [5; 6; 7; 8; 9; 10] /\
   d_height (n_disk (run ex_exec (ex_g 5) (firstn 12 ex6_hist))) = 4.
 Proof. vm_compute. repeat split; reflexivity. Qed.
+
+(* ======== P2P ingress: block/store.go HeaderStoreRetrieveLoop / DataStoreRetrieveLoop (Model/P2PIngress.v) ========
+   Code state: after the repair 2ae5bf0 (the cursor only moves forward, after the range was handed to sync).
+   Quantification: every initial cursor, EVERY sequence of signals — any store heights (bursts of any size,
+   a node started arbitrarily far behind, an empty store, store heights that go down), a batch read failing at
+   any signal, any DA tags — and every junk filter [accept] of the header loop. *)
+From Coq Require Import Sorting.Sorted.
+From Verif Require Import Model.P2PIngress Proofs.P2PIngressProofs.
+
+(* no height is skipped: the cursor never passes a height that was not handed to SyncLoop *)
+Theorem C02_p2p_no_skip_full : forall accept sigs cur n,
+  cur < n -> n <= cursor_after accept cur sigs -> accept n = true -> In n (emitted accept cur sigs).
+Proof. exact no_skip. Qed.
+Print Assumptions C02_p2p_no_skip_full.
+
+(* the cursor: it never decreases; a wake-up whose batch read failed leaves it where it was (the same range
+   is read again at the next signal); after a wake-up whose batch read did not fail it is the larger of the
+   previous cursor and the store height of that signal — also for an empty store (0) and for initial height > 1 *)
+Theorem C02_p2p_cursor_full : forall accept cur sigs s,
+  cur <= cursor_after accept cur sigs /\
+  cursor_after accept cur sigs <= cursor_after accept cur (sigs ++ [s]) /\
+  cursor_after accept cur (sigs ++ [s]) =
+    if gap_hit (cursor_after accept cur sigs) s then cursor_after accept cur sigs
+    else N.max (cursor_after accept cur sigs) (ps_store s).
+Proof. exact cursor_law. Qed.
+Print Assumptions C02_p2p_cursor_full.
+
+(* eventually handed over: once a wake-up's batch read succeeds — after any number of failed ones, whatever
+   came before and whatever comes after — every height the P2P store held at that wake-up (above the loop's
+   initial cursor = the node's own height when the loop started) has been handed to SyncLoop.  What remains a
+   hypothesis is only that some read of the range succeeds: while GetByHeight keeps failing inside the range
+   nothing of it is sent (the loop reads the whole range before it sends anything) *)
+Theorem C02_p2p_handed_over_full : forall accept cur sigs s rest n,
+  gap_hit (cursor_after accept cur sigs) s = false ->
+  cur < n -> n <= ps_store s -> accept n = true -> In n (emitted accept cur (sigs ++ s :: rest)).
+Proof. exact handed_over_once_served. Qed.
+Print Assumptions C02_p2p_handed_over_full.
+
+(* exactly once and in increasing order — for every sequence of signals (no condition on the store heights) *)
+Theorem C02_p2p_once_in_order_full : forall accept sigs cur,
+  StronglySorted N.lt (emitted accept cur sigs) /\ NoDup (emitted accept cur sigs).
+Proof. exact once_in_order. Qed.
+Print Assumptions C02_p2p_once_in_order_full.
+
+(* the cursor REACHES the highest head the P2P store ever showed: a store that begins at t <= initial cursor + 1
+   (the chain's initial height; the loop starts with the node's height >= initial - 1) and never fails a read of
+   a height it holds — whatever its head heights do: empty at some wake-ups, bursts of any size, going down.
+   (Before 2ae5bf0 this was false for t > 1: C02_p2p_wedge_before_the_repair below.) *)
+Theorem C02_p2p_reaches_store_full : forall accept t sigs cur,
+  t <= cur + 1 -> forallb (never_fails t) sigs = true ->
+  cursor_after accept cur sigs = max_store cur sigs.
+Proof. exact reaches_store. Qed.
+Print Assumptions C02_p2p_reaches_store_full.
+
+(* nothing else is handed over: only heights some signal's store held, that pass the filter *)
+Theorem C02_p2p_only_store_heights_full : forall accept sigs cur n,
+  In n (emitted accept cur sigs) -> exists s, In s sigs /\ n <= ps_store s /\ accept n = true.
+Proof. exact emitted_in_store. Qed.
+Print Assumptions C02_p2p_only_store_heights_full.
+
+(* COMPOSITION with C02_complete_partial (its guard distinct_commitmentsb is the only one, hence _partial): a
+   node fed by P2P only.  After any past h1 (events, clean restarts, crashes), the loops of the running
+   process start at or below the node's height and see any signals; if SyncLoop consumes (h2, any order,
+   anything of the chain in between) what they handed over, the node reaches every height both cursors
+   reached.  With C02_safety_full the blocks at those heights are exactly the proposer's. *)
+Theorem C02_p2p_complete_partial : forall exec g k C (acc : N -> bool) h1 hsigs dsigs ch cd h2 m,
+  ChainValid exec g k C -> distinct_commitmentsb C = true ->
+  Forall (item_in C) h1 ->
+  ch <= d_height (n_disk (run exec g h1)) -> cd <= d_height (n_disk (run exec g h1)) ->
+  Forall (item_in C) h2 -> forallb is_clean h2 = true ->
+  incl (hdr_events g C (emissions acc ch hsigs)) h2 ->
+  incl (data_events g C (emissions (fun _ => true) cd dsigs)) h2 ->
+  (m <= length C)%nat ->
+  (forall i, (i < m)%nat -> acc (g_initial g + N.of_nat i) = true) ->
+  g_initial g + N.of_nat m - 1 <= cursor_after acc ch hsigs ->
+  g_initial g + N.of_nat m - 1 <= cursor_after (fun _ => true) cd dsigs ->
+  g_initial g + N.of_nat m - 1 <= d_height (n_disk (run exec g (h1 ++ h2))).
+Proof. exact p2p_complete. Qed.
+Print Assumptions C02_p2p_complete_partial.
+
+(* the same in terms of the P2P STORES, with no condition on their head heights (no "not empty when asked"
+   any more): stores that begin at the chain's initial height and never fail a read of a height they hold,
+   loops that start with the node's height; if at SOME wake-up the header store showed a head >= H and at some
+   wake-up the data store did (empty or lower at any other wake-up, before or after), the node reaches H *)
+Theorem C02_p2p_complete_stores_partial : forall exec g k C (acc : N -> bool) h1 hsigs dsigs ch cd h2 m sh sd,
+  ChainValid exec g k C -> distinct_commitmentsb C = true ->
+  Forall (item_in C) h1 ->
+  ch <= d_height (n_disk (run exec g h1)) -> cd <= d_height (n_disk (run exec g h1)) ->
+  g_initial g <= ch + 1 -> g_initial g <= cd + 1 ->
+  forallb (never_fails (g_initial g)) hsigs = true -> forallb (never_fails (g_initial g)) dsigs = true ->
+  Forall (item_in C) h2 -> forallb is_clean h2 = true ->
+  incl (hdr_events g C (emissions acc ch hsigs)) h2 ->
+  incl (data_events g C (emissions (fun _ => true) cd dsigs)) h2 ->
+  (m <= length C)%nat ->
+  (forall i, (i < m)%nat -> acc (g_initial g + N.of_nat i) = true) ->
+  In sh hsigs -> In sd dsigs ->
+  g_initial g + N.of_nat m - 1 <= ps_store sh -> g_initial g + N.of_nat m - 1 <= ps_store sd ->
+  g_initial g + N.of_nat m - 1 <= d_height (n_disk (run exec g (h1 ++ h2))).
+Proof. exact p2p_complete_stores. Qed.
+Print Assumptions C02_p2p_complete_stores_partial.
+
+(* ---- the code before 2ae5bf0 (fixed finding p2p-wedged-after-signal-on-empty-store-initial-gt-1): chain with
+   initial height 7, node at height 6, one wake-up while the P2P store is still empty (Height() = 0) let the
+   cursor fall to 0; every later batch read started at height 1, which a store that begins at 7 does not
+   hold, failed, and nothing was ever handed over.  The repaired loop keeps the cursor at 6 and hands over
+   7..16 at the next wake-up. *)
+Definition wedge_sigs : list psignal :=
+  {| ps_store := 0; ps_tail := 7; ps_gap := None; ps_da := 0 |} ::
+  repeat {| ps_store := 16; ps_tail := 7; ps_gap := None; ps_da := 0 |} 3.
+Example C02_p2p_wedge_before_the_repair :
+  forallb (never_fails 7) wedge_sigs = true /\
+  loop_run_before_the_repair (fun _ => true) 6 wedge_sigs = ([[]; []; []; []], 0) /\
+  map (map fst) (fst (loop_run (fun _ => true) 6 wedge_sigs)) = [[]; seq_from 6 10; []; []] /\
+  cursor_after (fun _ => true) 6 wedge_sigs = 16.
+Proof. vm_compute. repeat split; reflexivity. Qed.
+
+(* ---- non-vacuity: a 160-block chain from height 5 (every third block empty); the node starts 30 blocks
+   behind; the header store is found EMPTY at the first wake-up, then holds 30 blocks, then jumps by 130 (one
+   read fails first), is seen lower once more; the data store jumps by 160 at once *)
+Definition exL := ex_long 5 160.
+Definition exL_hsigs := [ {| ps_store := 0; ps_tail := 5; ps_gap := None; ps_da := 0 |};
+                          {| ps_store := 34; ps_tail := 5; ps_gap := None; ps_da := 0 |};
+                          {| ps_store := 164; ps_tail := 5; ps_gap := Some 100; ps_da := 3 |};
+                          {| ps_store := 164; ps_tail := 5; ps_gap := None; ps_da := 3 |};
+                          {| ps_store := 90; ps_tail := 5; ps_gap := None; ps_da := 4 |} ].
+Definition exL_dsigs := [ {| ps_store := 164; ps_tail := 5; ps_gap := None; ps_da := 1 |}; {| ps_store := 164; ps_tail := 5; ps_gap := None; ps_da := 2 |} ].
+Definition exL_h2 := hdr_events (ex_g 5) exL (emissions (fun _ => true) 4 exL_hsigs) ++
+                     data_events (ex_g 5) exL (emissions (fun _ => true) 4 exL_dsigs).
+Example exL_valid : ChainValid ex_exec (ex_g 5) 1 exL /\ distinct_commitmentsb exL = true.
+Proof. split; [chain_valid|vm_compute; reflexivity]. Qed.
+Example exL_guard : forallb (never_fails 5) exL_dsigs = true /\ forallb (never_fails 5) exL_hsigs = false.
+Proof. split; reflexivity. Qed.
+Example exL_signals :
+  map (@length _) (fst (loop_run (fun _ => true) 4 exL_hsigs)) = [0; 30; 0; 130; 0]%nat /\
+  emitted (fun _ => true) 4 exL_hsigs = seq_from 4 160 /\ cursor_after (fun _ => true) 4 exL_hsigs = 164 /\
+  emitted (fun _ => true) 4 exL_dsigs = seq_from 4 160 /\ cursor_after (fun _ => true) 4 exL_dsigs = 164 /\
+  max_store 4 exL_dsigs = 164.
+Proof. vm_compute. repeat split; reflexivity. Qed.
+Example exL_result :
+  length exL_h2 = 320%nat /\ forallb is_clean exL_h2 = true /\
+  d_height (n_disk (run ex_exec (ex_g 5) [])) = 4 /\
+  d_height (n_disk (run ex_exec (ex_g 5) exL_h2)) = 164 /\
+  map x_height (n_log (run ex_exec (ex_g 5) exL_h2)) = seq_from 4 160.
+Proof. vm_compute. repeat split; reflexivity. Qed.
